@@ -294,13 +294,14 @@ def appendBasedOnParentNode (d : Dom) (element prevElement : Id) (child : NodeOr
 detaches the new node from its old parent (lib.rs:450 vs 478), so a node that is an earlier child
 of the same parent lands one position too far (after the sibling).  `.asCode` is the code as it
 stands (`Dom.appendBeforeSibling` above); `.detachFirst` is the repaired order (detach, then look
-the index up).  **Flip `beforeSiblingVariant` to `.detachFirst` once /repo is repaired.** -/
+the index up), what rcdom does since /repo 394a5e0; `.asCode` is kept as the record of the pinned
+tree's behaviour. -/
 inductive BeforeSiblingVariant where
   | asCode | detachFirst
 deriving Repr, DecidableEq
 
-/-- ← switch 2 -/
-def beforeSiblingVariant : BeforeSiblingVariant := .asCode
+/-- ← switch 2 (`.asCode` until /repo 394a5e0) -/
+def beforeSiblingVariant : BeforeSiblingVariant := .detachFirst
 
 def preDetach (b : BeforeSiblingVariant) (d : Dom) : NodeOrText → Except String Dom
   | .node c => match b with
@@ -371,22 +372,22 @@ def isMathmlAnnotationXmlIntegrationPoint (d : Dom) (target : Id) : Except Strin
 
 /-! ### maybe_clone_an_option_into_selectedcontent
 
-**DEFECT SWITCH** (DESIGN.md 1.3 item 11).  `CloneVariant.asCode` is rcdom/lib.rs as it stands:
+**DEFECT SWITCH** (DESIGN.md 1.3 item 11).  `CloneVariant.asCode` is rcdom/lib.rs of the pinned tree:
 * `get_a_selects_enabled_selectedcontent` tests `self.data` (the `select`) instead of `node.data`
   inside its search loop, so it never finds a `selectedcontent` element;
 * the search is breadth-first, not tree order;
 * `clone_with_subtree` gives every clone the parent pointer *of the node it was cloned from*;
   a cloned `template` shares the template contents of the original;
 * the replaced children of the `selectedcontent` keep their parent pointer.
-`CloneVariant.fixed` is what the standard demands (and what the proposed patch does).
+`CloneVariant.fixed` is what the standard demands, and what rcdom does since /repo ebdbd68.
 `cloneVariant` below selects the behaviour used by `Dom.apply`, i.e. by the `rcdom` engine and by
-every model built on `Dom`: **flip it to `.fixed` once /repo is repaired.** -/
+every model built on `Dom`; `.asCode` is kept as the record of the pinned tree's behaviour. -/
 inductive CloneVariant where
   | asCode | fixed
 deriving Repr, DecidableEq
 
-/-- ← the switch -/
-def cloneVariant : CloneVariant := .asCode
+/-- ← the switch (`.asCode` until /repo ebdbd68) -/
+def cloneVariant : CloneVariant := .fixed
 
 def hasAttrLocal (attrs : List Attr) (loc : Str) : Bool := attrs.any (fun a => a.name.loc == loc)
 
@@ -465,24 +466,60 @@ def cloneAsCode (d : Dom) : Nat → Id → Except String (Dom × Id)
     let id := d.nodes.size
     .ok ({ d with nodes := d.nodes.push { data := n.data, parent := n.parent, children := kids } }, id)
 
-/-- deep copy as the standard's "clone a node with subtree": the copy of `x` gets parent `newParent`,
-its descendants point to their copied parents; the contents of a cloned `template` are copied too. -/
-def cloneFixed (d : Dom) : Nat → Id → Option Id → Except String (Dom × Id)
-  | 0, _, _ => .error "diverges: clone_with_subtree (cyclic tree)"
-  | fuel + 1, x, newParent => do
+/-- the `for child in self.children` loop of the repaired `clone_with_subtree`: clone the child
+(`cl`), point it to the copy (`parent`) and push it onto the copy's child list — exactly `fn append` -/
+def cloneKidsWith (cl : Dom → Id → Except String (Dom × Id)) (parent : Id) : Dom → List Id → Except String Dom
+  | d, [] => .ok d
+  | d, c :: cs => do
+    let (d, k) ← cl d c
+    let d ← d.appendRaw parent k
+    cloneKidsWith cl parent d cs
+
+/-- `clone_with_subtree` as repaired (/repo ebdbd68), = the standard's "clone a node with subtree":
+first the template contents (if any) are copied, then the copy is created parentless and childless,
+then every child is copied and attached to it. -/
+def cloneFixed (d : Dom) : Nat → Id → Except String (Dom × Id)
+  | 0, _ => .error "diverges: clone_with_subtree (cyclic tree)"
+  | fuel + 1, x => do
     let n ← d.get x
-    -- reserve the id of the copy first so that children can point to it
-    let id := d.nodes.size
-    let d := { d with nodes := d.nodes.push { data := n.data, parent := newParent, children := [] } }
-    let (d, kids) ← n.children.foldlM (fun (acc : Dom × List Id) c => do
-        let (d', k) ← cloneFixed acc.1 fuel c (some id)
-        pure (d', acc.2 ++ [k])) (d, [])
     let (d, data) ← match n.data with
       | .element name attrs (some tc) ip => do
-        let (d', tc') ← cloneFixed d fuel tc none
+        let (d', tc') ← cloneFixed d fuel tc
         pure (d', NodeData.element name attrs (some tc') ip)
       | other => pure (d, other)
-    .ok (d.setNode id { data := data, parent := newParent, children := kids }, id)
+    let (d, id) := d.alloc data
+    let d ← cloneKidsWith (fun d c => cloneFixed d fuel c) id d n.children
+    .ok (d, id)
+
+/-- step 2 of "clone an option into a selectedcontent": the copies of the option's children, in order -/
+def cloneListWith (cl : Dom → Id → Except String (Dom × Id)) : Dom → List Id → Except String (Dom × List Id)
+  | d, [] => .ok (d, [])
+  | d, c :: cs => do
+    let (d, k) ← cl d c
+    let (d, ks) ← cloneListWith cl d cs
+    .ok (d, k :: ks)
+
+/-- `old_child.parent.set(None)` for every listed node -/
+def clearParents (d : Dom) : List Id → Dom
+  | [] => d
+  | c :: cs =>
+    clearParents (match d.nodes[c]? with
+      | some cn => d.setNode c { cn with parent := none }
+      | none => d) cs
+
+/-- "replace all", first half: the old children lose their parent and leave the child list -/
+def detachChildren (d : Dom) (p : Id) : Except String Dom := do
+  let pn ← d.get p
+  let d := d.clearParents pn.children
+  let pn ← d.get p
+  .ok (d.setNode p { pn with children := [] })
+
+/-- "replace all", second half: each copy gets `p` as parent and joins its child list, in order -/
+def attachAll (d : Dom) (p : Id) : List Id → Except String Dom
+  | [] => .ok d
+  | k :: ks => do
+    let d ← d.appendRaw p k
+    attachAll d p ks
 
 /-- `clone_an_option_into_selectedcontent` (lib.rs:223) -/
 def cloneOptionInto (v : CloneVariant) (d : Dom) (option sc : Id) : Except String Dom := do
@@ -495,18 +532,11 @@ def cloneOptionInto (v : CloneVariant) (d : Dom) (option sc : Id) : Except Strin
     let scn ← d.get sc
     .ok (d.setNode sc { scn with children := frag })
   | .fixed =>
-    -- step 2: the copies of the option's children (their parent will be the selectedcontent) …
-    let (d, frag) ← o.children.foldlM (fun (acc : Dom × List Id) c => do
-        let (d', k) ← cloneFixed acc.1 (acc.1.size + 1) c (some sc)
-        pure (d', acc.2 ++ [k])) (d, [])
-    -- … step 3 "replace all": the old children are removed (parent cleared) and the copies inserted
-    let scn ← d.get sc
-    let d := scn.children.foldl (fun d c =>
-        match d.nodes[c]? with
-        | some cn => d.setNode c { cn with parent := none }
-        | none => d) d
-    let scn ← d.get sc
-    .ok (d.setNode sc { scn with children := frag })
+    -- step 2: the copies of the option's children …
+    let (d, frag) ← cloneListWith (fun d c => cloneFixed d (d.size + 1) c) d o.children
+    -- … step 3 "replace all" within the selectedcontent
+    let d ← d.detachChildren sc
+    d.attachAll sc frag
 
 /-- the first half of `maybe_clone_an_option_into_selectedcontent` (lib.rs:564): the `selectedcontent`
 element that is to mirror `option`, `none` when one of the conditions of the standard fails
